@@ -671,6 +671,26 @@ func (ex *Executor) evalCallSpec(e *SExpr, env *SpecEnv) (Val, error) {
 		a.Ty = ty
 		a.P = nil
 		return a, nil
+	case "asiface":
+		// the interface value a Go conversion of x to an interface type yields
+		a, err := argv(0)
+		if err != nil {
+			return Val{}, err
+		}
+		if a.Ty == nil {
+			return Val{}, fmt.Errorf("asiface of untyped value")
+		}
+		return ex.mkIface(env.st, a, types.Universe.Lookup("error").Type()), nil
+	case "implements":
+		a, err := argv(0)
+		if err != nil {
+			return Val{}, err
+		}
+		ty, err := ex.resolveType(typeText(e.Args[1]), env)
+		if err != nil {
+			return Val{}, err
+		}
+		return specBool(And(Neq(a.T, Num(0)), App("implements."+typeName(ty), SBool, ex.ifaceTag(a.T)))), nil
 	case "isnil":
 		a, err := argv(0)
 		if err != nil {
